@@ -50,6 +50,10 @@ type Property struct {
 	Assumptions []string
 	Rules       []Rule
 	Tech        string // a few words naming the deciding method
+	// Hold, when non-empty, keeps the property out of MANIFEST.checks (it is
+	// listed under not_applicable with this reason) until a firing rule has
+	// been triaged as a genuine defect or a false alarm.
+	Hold string
 }
 
 // Technique names the deciding method for MANIFEST.json.
